@@ -278,8 +278,10 @@ func fetchRepoBatch(stores context2.Stores, settings Settings, keys []string) (m
 		return nil, werr
 	}
 
-	// sort result batch
-	sort.Sort(rps)
+	// sort result batch by key, so that the concatenation of batches follows the order of the key scan
+	sort.SliceStable(rps, func(i, j int) bool {
+		return model.GetArchivePathToRepoDescriptor(rps[i].Name) < model.GetArchivePathToRepoDescriptor(rps[j].Name)
+	})
 	return rps, nil
 }
 
